@@ -62,7 +62,8 @@ class Gen(object):
         if pats and self.maybe(0.3):
             wn.options.hydraulic.pattern = r.choice(pats)
             self.call('options.hydraulic.pattern = %r' % wn.options.hydraulic.pattern)
-        elif self.maybe(0.3):
+        elif self.maybe(0.3) and not (self.inp and '1' in pats):
+            # (an INP file cannot say "no default pattern" when a pattern named 1 exists: blank means pattern 1 to EPANET)
             wn.options.hydraulic.pattern = None
         # curves
         curves = {'HEAD': [], 'EFFICIENCY': [], 'VOLUME': [], 'HEADLOSS': []}
@@ -287,6 +288,9 @@ class Gen(object):
                 wn.get_node(n).add_leak(wn, **kw)
                 self.call('%s.add_leak(wn, **%s)' % (n, kw))
                 self.features.add('leak_timed' if (kw['start_time'] is not None or kw['end_time'] is not None) else 'leak')
+        if self._trace:
+            wn.options.quality.trace_node = r.choice(nodes)
+            self.call('options.quality.trace_node = %r' % wn.options.quality.trace_node)
         # controls and rules
         self.controls(wn, ctl, LinkStatus, juncs, tanks, ress, links, all_links)
         return wn
